@@ -7,11 +7,11 @@ package mqtt
 
 //@ func KeepAlive
 //@   mode int
-//@   props C13
+//@   props C09 C13
 //@   requires ctx != nil && cli != nil
 //@   assigns nothing
 //@   loop 1 invariant true
-//@   loop 1 iter[C13] one_ping_per_tick: evCount("recv") == 1 && evCount("context.WithTimeout") == 1 && evCount("Client.Ping") == 1 &&
+//@   loop 1 iter[C09,C13] one_ping_per_tick: evCount("recv") == 1 && evCount("context.WithTimeout") == 1 && evCount("Client.Ping") == 1 &&
 //@        evArg[context.Context]("context.WithTimeout", 0, 0) == ctx && evArg[time.Duration]("context.WithTimeout", 0, 1) == timeout &&
 //@        evArg[context.Context]("Client.Ping", 0, 1) == evRet[context.Context]("context.WithTimeout", 0, 0) &&
 //@        evIndex("recv", 0) < evIndex("Client.Ping", 0)
@@ -39,7 +39,7 @@ package mqtt
 
 //@ func (*reconnectClient).Connect$1
 //@   mode int
-//@   props C09 C13 C08 C01 C03 C17
+//@   props C09 C13 C08 C01 C03 C17 C16
 //@   note the loop goroutine of the reconnecting client. Trusted: Connect is called once per reconnectClient (a second call would close c.done twice).
 //@   requires c != nil && c.options != nil && c.RetryClient != nil && c.dialer != nil && ctx != nil
 //@   requires len(clientID) <= 0xFFFF
@@ -73,10 +73,11 @@ package mqtt
 //@   loop 1 iter[C08] resubscribe_iff: evCount("(*RetryClient).Resubscribe") == ite(connected && initialized && (!evRet[bool]("(*RetryClient).Connect", 0, 0) || c.options.AlwaysResubscribe), 1, 0)
 //@   loop 1 iter[C03] resubscribe_before_retry: evCount("(*RetryClient).Resubscribe") == 1 ==> evIndex("(*RetryClient).Connect", 0) < evIndex("(*RetryClient).Resubscribe", 0) && evIndex("(*RetryClient).Resubscribe", 0) < evIndex("(*RetryClient).Retry", 0)
 //@   loop 1 iter[C01] retry_after_connect: evCount("(*RetryClient).Retry") == ite(connected, 1, 0) && (connected ==> evIndex("(*RetryClient).Connect", 0) < evIndex("(*RetryClient).Retry", 0) && evArg[*RetryClient]("(*RetryClient).Retry", 0, 0) == c.RetryClient)
-//@   loop 1 iter[C13] keepalive_per_connection: evCount("go:(*reconnectClient).Connect$1$3") == ite(connected && c.options.PingInterval > 0, 1, 0) &&
+//@   loop 1 iter[C13,C16] keepalive_per_connection: evCount("go:(*reconnectClient).Connect$1$3") == ite(connected && c.options.PingInterval > 0, 1, 0) &&
 //@        (evCount("go:(*reconnectClient).Connect$1$3") == 1 ==>
 //@          *closureVarN[**BaseClient](evArg[func()]("go:(*reconnectClient).Connect$1$3", 0, 0), "(*reconnectClient).Connect$1$3", "baseCli") == evRet[*BaseClient]("Dialer.DialContext", 0, 0) &&
 //@          *closureVarN[**reconnectClient](evArg[func()]("go:(*reconnectClient).Connect$1$3", 0, 0), "(*reconnectClient).Connect$1$3", "c") == c &&
+//@          iterFresh(closureVarN[**BaseClient](evArg[func()]("go:(*reconnectClient).Connect$1$3", 0, 0), "(*reconnectClient).Connect$1$3", "baseCli")) &&
 //@          *closureVarN[*context.Context](evArg[func()]("go:(*reconnectClient).Connect$1$3", 0, 0), "(*reconnectClient).Connect$1$3", "ctxKeepAlive") == evRet[context.Context]("context.WithCancel", 0, 0))
 //@   loop 1 iter[C13] redial_after_connection_loss: connected ==> evCount("select") == 2 && evRet[int]("select", 0, 0) == 0 &&
 //@        evArg[<-chan struct{}]("select", 0, 0) == evRet[<-chan struct{}]("(*BaseClient).Done", 0, 0) && evRet[error]("(*BaseClient).Err", 0, 0) != nil &&
